@@ -54,4 +54,16 @@ PROPS = {
         "level_text": "After every explored make / null-make / undo (~2e6 quick / ~4e7 thorough boundary states, ~1e7+ in-situ states inside real searches) the incremental hash equalled the recomputed one and the three placement encodings agreed; every position reached by two move orders carried one hash. Held on the executions observed.",
         "level_note": "trusted: repo's own calculateHash as the definition of the position hash; ref.Key() as position identity",
     },
+    "C05": {
+        "pkg": "./c05",
+        "stages": [{"name": "main", "timeout_q": 1500, "timeout_t": 7200}],
+        "rule": "cases = (position, encoding) pairs: for each generated position ALL 32768 move encodings are put to Board.IsPseudoLegal and compared with membership in GenNoisy+GenNotNoisy output (reference pseudo-legal set as fault localiser); "
+                "positions are weighted to pawns on the 2nd/7th rank, castling-ready kings and e.p. targets (corpus, playouts, dense/sparse/adversarial, pre-double-push). End to end: for sampled positions every one of the 20480 "
+                "in-alphabet 4/5-character move strings plus 2000 out-of-alphabet strings goes through the real UCI driver (`position fen F moves X; fen`) and the printed board must be F or the successor under a GENERATED move. "
+                "evaluations counts encodings + strings; distinct_nontrivial = distinct position keys of the exhaustive part. " + VALID,
+        "assumptions": [REF, "the definition of 'emitted' is the engine's own generator output, as the property states"],
+        "technique": "runtime monitor: exhaustive per-position enumeration of all 2^15 encodings against the generator as oracle + end-to-end UCI move-string sweep",
+        "level_text": "For every explored position IsPseudoLegal agreed with generator membership on all 32768 encodings (1.3e8 pairs quick / 3.3e9 thorough), and no UCI move string put a non-generated move on the board. Per position the enumeration is complete; over positions it is exploration.",
+        "level_note": "trusted: nothing beyond the engine's own generator as the definition and the real uci.Driver; out-of-alphabet strings may alias a genuine move through parseUCIMove's byte arithmetic, which the statement allows",
+    },
 }
